@@ -255,7 +255,16 @@ class Grammar(object):
         g.undefined_symbols()
         g.compute_first()
         g.compute_follow()
-        lr = yacc.LRGeneratedTable(g, 'LALR', yacc.NullLogger())
+
+        class Table(yacc.LRGeneratedTable):
+            # keep the canonical collection so that conflicts can be
+            # related to their items afterwards
+            def lr0_items(self):
+                if getattr(self, '_C', None) is None:
+                    self._C = yacc.LRGeneratedTable.lr0_items(self)
+                return self._C
+
+        lr = Table(g, 'LALR', yacc.NullLogger())
         return g, lr
 
 
